@@ -30,7 +30,7 @@ def gen_spec(rnd):
     # explosive networks (e.g. a quadratic autocatalytic general rate) are screened out: they only make simulations slow
     for _ in range(200):
         sp = _gen_spec(rnd)
-        if gen.bounded(sp, 4.0, 300.0) and gen.ssa_screen(sp, 4.0, max_events=3000, seed=rnd.getrandbits(30)):
+        if not gen.superlinear_producer(sp) and gen.bounded(sp, 4.0, 300.0) and gen.ssa_screen(sp, 4.0, max_events=3000, seed=rnd.getrandbits(30)):
             return sp
     raise RuntimeError("no bounded C17 spec found")
 
